@@ -125,9 +125,11 @@ class Ctx:
 
 # ----------------------------------------------------------------------------- build / regenerate
 
-def go_build(pkg, outname, tags=None):
+def go_build(pkg, outname, tags=None, race=False):
     tmp = os.path.join(BIN, f".{outname}.{os.getpid()}")
     cmd = ["go", "build"]
+    if race:
+        cmd.append("-race")
     if tags:
         cmd += ["-tags", tags]
     cmd += ["-o", tmp, pkg]
@@ -423,6 +425,9 @@ def shrink(suite, ses, canon):
     return cur
 
 
+TIMING_SUITES = ("wska", "wscli", "wssrv", "wsio", "wsadmit", "cdisp", "sdisp", "l3c", "l3s")
+
+
 def differential(ctx, suite, sessions, seed, canon=canon_default, nontrivial=None, corpus=True, oracle=None):
     """generated op sequences on the real code vs the Lean driver; returns number of disagreeing sessions"""
     ops_all = []
@@ -471,6 +476,17 @@ def differential(ctx, suite, sessions, seed, canon=canon_default, nontrivial=Non
             bad.append((s, mism))
         if oracle:
             for (sig, what) in oracle(s, o_impl):
+                if suite in TIMING_SUITES:
+                    # real sockets and millisecond timers: the violation must reproduce when the session is re-run alone, twice
+                    again = 0
+                    for _ in range(2):
+                        impl2, _, _, _ = run_pair(suite, s)
+                        o2 = [canon(x) for x in impl2[:len(s)]]
+                        if any(sg == sig for (sg, _) in oracle(s, o2)):
+                            again += 1
+                    if again < 2:
+                        ctx.extra.setdefault("oracle_hits_not_reproduced", []).append(dict(suite=suite, sig=sig, ops=s[:6]))
+                        continue
                 ctx.violation(sig, what, dict(kind="differential", suite=suite, ops=s, impl=o_impl), concrete=True)
     ctx.add_cov(evaluations=len(ops_all), distinct=nontriv, traces=len(ses),
                 samples=[dict(suite=suite, ops=ses[min(len(ses) - 1, 1 + k)][:12]) for k in range(min(2, len(ses)))],
